@@ -368,6 +368,13 @@ class Matrix3(Matrix):
             if shape != arg._shape_:
                 arg = arg.broadcast_to(shape, _protected=False).copy()
 
+            # A masked rotation yields a masked result, as in any other product
+            if np.any(self._mask_):
+                if np.shape(self._mask_):
+                    arg = arg.remask_or(np.broadcast_to(self._mask_, shape))
+                else:
+                    arg = arg.remask_or(True)
+
             return arg
 
         # For every other purpose, use the default multiply
